@@ -12,6 +12,8 @@
 (*                                                                         *)
 (* where fmt is "hdf5" or "pkl" and mode says how the target is given:     *)
 (*   "path"   a file name (str);                                           *)
+(*   "pathlib" the same file name as a pathlib.Path: exactly the semantics *)
+(*            of a str path (refuse-or-replace), for save and for load;    *)
 (*   "fresh"  an open binary file object on the path, opened for this one  *)
 (*            call (positioned at 0, not truncated) and closed afterwards; *)
 (*   "kept"   an open file object on the path that stays open (and is      *)
@@ -54,7 +56,7 @@ CONSTANTS NPath,           \* paths are 1..NPath
           KindAssignments, \* set of functions 1..NObj -> Kinds, one is chosen in Init
           Depth,           \* length of the enumerated histories
           EmitMod,         \* emit one history in EmitMod (1 = all)
-          Modes,           \* subset of {"path", "fresh", "kept"} used in this configuration
+          Modes,           \* subset of {"path", "pathlib", "fresh", "kept"} used in this configuration
           Design           \* "code" or a broken design (see Broken below)
 
 VARIABLES fs,      \* Path -> File
@@ -72,6 +74,7 @@ Kinds == {"RDMs", "Dataset", "TemporalDataset", "ModelFixed", "ModelWeighted", "
           "ModelInterpolate", "Result"}
 Broken == {"no_remove",        \* overwrite does not remove / truncate the old file
            "no_guard",         \* the hdf5 writer does not refuse an existing path
+           "guard_str_only",   \* ... refuses only a str, not a pathlib.Path naming the same file
            "refusal_cleans_up",\* a refused save deletes the existing file
            "pkl_refuses",      \* the pkl writer refuses an existing path like hdf5 does
            "writer_marks"}     \* the pkl version stamp is put into the object's own dict
@@ -103,6 +106,8 @@ Owner(kk, f) == IF f.cells = {} THEN 0
                      ELSE -1
 View(kk, f) == [p \in Paths |-> [fmt |-> f[p].fmt, own |-> Owner(kk, f[p]), ex |-> IF f[p].ex THEN 1 ELSE 0]]
 
+IsPath(mode) == mode \in {"path", "pathlib"}     \* the target is a file NAME (str or pathlib.Path)
+
 (* ------------------------------ events ---------------------------------- *)
 \* src = 0: catalogue object o ; src = 1: the object returned by the last Load (content o)
 Ev(op, o, src, p, fmt, ow, mode) ==
@@ -114,7 +119,7 @@ Enabled(f, ld, hd, e) ==
             /\ e.o \in Objs /\ e.fmt \in Fmts /\ e.ow \in {0, 1} /\ e.mode \in Modes /\ e.src \in {0, 1}
             /\ (e.src = 1 => ld = e.o)
             /\ (e.mode = "kept" \/ e.p \notin hd)
-            /\ (e.mode # "path" => (e.ow = 1 \/ ~HasContent(f[e.p])))
+            /\ (~IsPath(e.mode) => (e.ow = 1 \/ ~HasContent(f[e.p])))
        [] e.op = "load" ->
             /\ e.mode \in (Modes \ {"kept"}) /\ HasContent(f[e.p]) /\ f[e.p].fmt = e.fmt
        [] e.op = "close" -> e.p \in hd
@@ -122,21 +127,21 @@ Enabled(f, ld, hd, e) ==
 
 (* ------------------------------ Save in stages -------------------------- *)
 \* stage 0 (caller): opening a file object on an absent path creates an empty file
-Opened(file, e) == IF e.mode # "path" /\ ~file.ex THEN Empty ELSE file
+Opened(file, e) == IF ~IsPath(e.mode) /\ ~file.ex THEN Empty ELSE file
 \* stage 2: util.file_io.remove_file, only with overwrite
 Removed(file, e) ==
   IF e.ow = 0 \/ Design = "no_remove" THEN file
-  ELSE IF e.mode = "path" THEN Absent ELSE Empty
+  ELSE IF IsPath(e.mode) THEN Absent ELSE Empty
 \* stage 3: the writers.  Result: [out, file]
 WriteHdf5(file, e, cells) ==
-  IF e.mode = "path" /\ file.ex /\ Design # "no_guard"
+  IF IsPath(e.mode) /\ file.ex /\ Design # "no_guard" /\ ~(Design = "guard_str_only" /\ e.mode = "pathlib")
   THEN [out |-> "Refused", file |-> IF Design = "refusal_cleans_up" THEN Absent ELSE file]   \* ValueError('File already exists!')
   ELSE IF KeysOf(file.cells) \cap KeysOf(cells) # {}
        THEN [out |-> "Error", file |-> file]                  \* h5py: name already exists
        ELSE [out |-> "Ok", file |-> [ex |-> TRUE, fmt |-> "hdf5", cells |-> file.cells \cup cells]]
 WritePkl(file, e, cells) ==
-  IF Design = "pkl_refuses" /\ e.mode = "path" /\ file.ex THEN [out |-> "Refused", file |-> file]
-  ELSE IF e.mode = "path" THEN [out |-> "Ok", file |-> [ex |-> TRUE, fmt |-> "pkl", cells |-> cells]]  \* open(.., 'wb')
+  IF Design = "pkl_refuses" /\ IsPath(e.mode) /\ file.ex THEN [out |-> "Refused", file |-> file]
+  ELSE IF IsPath(e.mode) THEN [out |-> "Ok", file |-> [ex |-> TRUE, fmt |-> "pkl", cells |-> cells]]  \* open(.., 'wb')
   ELSE IF file.cells = {} THEN [out |-> "Ok", file |-> [ex |-> TRUE, fmt |-> "pkl", cells |-> cells]]
   ELSE [out |-> "Ok", file |-> [ex |-> TRUE, fmt |-> "pkl", cells |-> file.cells \cup cells]]        \* written into old content
 SaveResult(kk, f, m, e) ==
@@ -209,7 +214,7 @@ RefusalExactly ==
      LET e == hist[i].ev IN
      /\ hist[i].out \in {"Ok", "Refused"}
      /\ hist[i].out = "Refused" <=>
-          (e.fmt = "hdf5" /\ e.mode = "path" /\ e.ow = 0 /\ PostBefore(i)[e.p].ex = 1)
+          (e.fmt = "hdf5" /\ IsPath(e.mode) /\ e.ow = 0 /\ PostBefore(i)[e.p].ex = 1)
 RefusedLeavesFsUnchanged ==
   \A i \in 1..Len(hist) : hist[i].out = "Refused" => hist[i].post = PostBefore(i)
 \* after a successful save the file holds exactly the new object: no leftover key of an old one
